@@ -10,7 +10,7 @@ from ..astutil import call_name, calls_in, own_nodes, unparse, kwarg, bind_call
 from ..cfg import cfg_of
 from ..dataflow import reaching
 from ..expr import Translator, equal, forward_substitute
-from ..model import AnalysisError, Program, norm_key, parent_of
+from ..model import AnalysisError, Program, norm_key, parent_of, enclosing_stmt
 from ..report import Checker
 from .common import engine
 
@@ -32,7 +32,7 @@ EXPLANATION = (
 RULES = {
     "C04.R1": "orient_sensor_to is the clockwise rotation by (target - current); reads old components; vertical untouched; orientation recorded",
     "C04.R2": "single_azimuth = ns cos a + ew sin a (same convention as R1), antiperiodic in 180 deg; callers pass (ns, ew, azimuth)",
-    "C04.R3": "the rotation preserves ns^2 + ew^2",
+    "C04.R3": "the rotation preserves ns^2 + ew^2; every method name of the rotation-invariant families is bound to a function of ns^2 + ew^2 only",
     "C04.R4": "azimuthal = loop of single-azimuth processing with all read settings forwarded; results paired with azimuths in order",
     "C04.R5": "RotDpp: rows per azimuth + vertical last; percentile along axis 0 of the horizontal rows",
     "C04.R6": "preprocessing orients first, iff a target is configured, with the configured value",
@@ -49,6 +49,47 @@ def run(ck: Checker, prog: Program, tier: str):
     ck.guard(_r4, ck, prog)
     ck.guard(_r5, ck, prog)
     ck.guard(_r6, ck, prog)
+    ck.guard(_invariant_families, ck, prog)
+
+
+INVARIANT_FAMILIES = {
+    "squared-average family": ["squared_average", "quadratic_mean", "root_mean_square", "effective_amplitude_spectrum"],
+    "total-horizontal-energy family": ["total_horizontal_energy", "vector_summation"],
+}
+
+
+def _invariant_families(ck: Checker, prog: Program):
+    """Every method name of the rotation-invariant families is bound to a combination that depends on the
+    horizontals only through |ns|^2 + |ew|^2 (checked on the formula of the bound function)."""
+    reg = prog.registry("processing", "COMBINE_HORIZONTAL_REGISTER")
+    r, phi = sp.Symbol("r", positive=True), sp.Symbol("phi", real=True)
+    n = 0
+    for fam, keys in INVARIANT_FAMILIES.items():
+        for k in keys:
+            v = reg.get(k)
+            if v is None:
+                ck.violation(P + "R3", "processing.COMBINE_HORIZONTAL_REGISTER", f"'{k}'", f"method '{k}' of the {fam} is not registered", loc="hvsrpy/processing.py")
+                continue
+            t = prog.resolve_name(prog.module("processing"), v.id) if isinstance(v, ast.Name) else None
+            if not t or t[0] != "func":
+                raise AnalysisError(f"COMBINE_HORIZONTAL_REGISTER['{k}'] is not a function name")
+            g = t[1]
+            if len(g.params) < 2:
+                raise AnalysisError(f"{g.qualname}: expected (ns, ew, ...)")
+            T = Translator(env={g.params[0]: r * sp.cos(phi), g.params[1]: r * sp.sin(phi)})
+            forward_substitute([st for st in g.node.body if isinstance(st, ast.Assign)], T)
+            rets = [x for x in own_nodes(g.node) if isinstance(x, ast.Return)]
+            if len(rets) != 1:
+                raise AnalysisError(f"{g.qualname}: expected one return")
+            val = T.tr(rets[0].value)
+            n += 1
+            if sp.simplify(sp.diff(val, phi)) == 0:
+                ck.ok(P + "R3", "processing.COMBINE_HORIZONTAL_REGISTER", f"'{k}' -> {g.name}: depends on the horizontals only through ns^2 + ew^2", detail=str(sp.simplify(val)))
+            else:
+                ck.violation(P + "R3", "processing.COMBINE_HORIZONTAL_REGISTER", f"'{k}'",
+                             f"method '{k}' of the {fam} is bound to {g.name}, whose value {sp.simplify(val)} changes when the horizontals are rotated",
+                             loc=f"hvsrpy/processing.py:{v.lineno}")
+    ck.floor(P + "R3", n, 6, "method names of the rotation-invariant families")
 
 
 def _r1_r3(ck: Checker, prog: Program):
@@ -216,8 +257,14 @@ def _r4(ck: Checker, prog: Program, rule: str = "C04.R4"):
         if isinstance(st, ast.Assign) and isinstance(st.targets[0], ast.Attribute) and unparse(st.targets[0].value) == svar:
             set_in_loop[st.targets[0].attr] = unparse(st.value)
     ck.floor(rule, len(reads), 5, "settings fields read by the single-azimuth path")
+    from .c15 import delivers
+    scls = prog.cls("HvsrTraditionalSingleAzimuthProcessingSettings")
     for fld in sorted(reads):
-        if fld in given and given[fld] == f"settings.{fld}":
+        if fld in given and given[fld] == f"settings.{fld}" and not delivers(prog, scls, fld):
+            ck.violation(rule, scls.qualname + ".__init__", f"constructor keyword {fld}",
+                         f"`{fld}` is handed to the per-azimuth settings by keyword but the constructor does not store it (falls back to the default): "
+                         f"the azimuthal result would not be the stack of single-azimuth results", loc=f.loc(cons[0]))
+        elif fld in given and given[fld] == f"settings.{fld}":
             ck.ok(rule, fq, f"{fld} forwarded")
         elif fld in set_in_loop and fld == "azimuth_in_degrees" and set_in_loop[fld] == az:
             ck.ok(rule, fq, f"{fld} = loop azimuth")
@@ -227,23 +274,61 @@ def _r4(ck: Checker, prog: Program, rule: str = "C04.R4"):
                          f"(given: {given.get(fld) or set_in_loop.get(fld)}): the azimuthal result would not be the stack of single-azimuth results",
                          loc=f.loc(cons[0]))
     # the loop
-    it_ok = unparse(lp.iter) == "settings.azimuths_in_degrees" and not any(isinstance(x, (ast.Break, ast.Continue, ast.If)) for x in ast.walk(lp))
+    from ..resolve import Resolver, canon
+    from ..cfg import events_per_iteration
+    RR = Resolver(prog, f, inline=False)
+    AZS = RR.expect("settings.azimuths_in_degrees")
+    problems = []
+    if canon(RR.value(lp.iter, lp)) != AZS:
+        problems.append(f"the loop runs over `{unparse(lp.iter)}`")
+    if any(isinstance(x, (ast.Break, ast.Continue, ast.Return)) for x in ast.walk(lp)):
+        problems.append("the loop can skip or stop early")
     call = calls_in(lp, "traditional_single_azimuth_hvsr_processing")
     app = calls_in(lp, "append")
-    good = it_ok and len(call) == 1 and [unparse(a) for a in call[0].args] == ["records", svar] and len(app) == 1
-    if good:
-        res = parent_of(call[0])
-        good = isinstance(res, ast.Assign) and unparse(app[0].args[0]) == unparse(res.targets[0]) \
-            and [s for s in lp.body if isinstance(s, ast.Assign) and unparse(s.targets[0]) == f"{svar}.azimuth_in_degrees"][0].lineno < res.lineno
+    if len(call) != 1 or len(app) != 1:
+        problems.append(f"{len(call)} single-azimuth call(s) and {len(app)} append(s) per azimuth")
+    else:
+        cfg = cfg_of(f)
+        c_st, a_st = enclosing_stmt(call[0]), enclosing_stmt(app[0])
+        evs = [c_st] if c_st is a_st else [c_st, a_st]
+
+        def classify(n):
+            if cfg.kind(n) != "stmt":
+                return None
+            for i_, e in enumerate(evs):
+                if cfg.ast_of(n) is e:
+                    return i_
+            return None
+        res = events_per_iteration(cfg, lp, classify, len(evs))
+        if res != {tuple(1 for _ in evs)}:
+            problems.append(f"per azimuth the processing/append statements execute {sorted(res)} times")
+        b = bind_call(call[0], prog.func("processing.traditional_single_azimuth_hvsr_processing").params)
+        if unparse(b.get("records")) != "records" or not reaching(f).only_param("records", call[0]):
+            problems.append(f"the single-azimuth processing receives `{unparse(b.get('records')) if b.get('records') is not None else None}`, not the caller's records")
+        if unparse(b.get("settings")) != svar:
+            problems.append("the single-azimuth processing does not receive the per-azimuth settings")
+        if canon(RR.value(app[0].args[0], a_st)) != canon(RR.value(call[0], c_st)):
+            problems.append(f"what is appended (`{unparse(app[0].args[0])}`) is not the result of the single-azimuth processing")
+        setaz = [s_ for s_ in lp.body if isinstance(s_, ast.Assign) and unparse(s_.targets[0]) == f"{svar}.azimuth_in_degrees"]
+        order = {id(n): i_ for i_, n in enumerate(ast.walk(lp))}
+        if len(setaz) != 1 or unparse(setaz[0].value) != az or setaz[0].lineno > c_st.lineno and order[id(setaz[0])] > order[id(c_st)]:
+            problems.append("the azimuth is not set on the per-azimuth settings before the processing call")
     rets = [r for r in own_nodes(f.node) if isinstance(r, ast.Return)]
     ctor = calls_in(rets[0].value, "HvsrAzimuthal") if rets else []
-    pair = len(ctor) == 1 and len(ctor[0].args) >= 2 and unparse(ctor[0].args[0]) == unparse(app[0].func.value) if app else False
-    pair = pair and unparse(ctor[0].args[1]) == "settings.azimuths_in_degrees"
-    if good and pair and reaching(f).only_param("records", call[0]) and reaching(f).only_param("settings", lp):
+    if len(ctor) != 1 or len(ctor[0].args) < 2:
+        problems.append("HvsrAzimuthal(<results>, <azimuths>) is not what is returned")
+    elif app:
+        if unparse(ctor[0].args[0]) != unparse(app[0].func.value):
+            problems.append("the result is not built from the list of per-azimuth results")
+        if canon(RR.value(ctor[0].args[1], rets[0])) != AZS:
+            problems.append(f"the results are paired with `{unparse(ctor[0].args[1])}`, not with settings.azimuths_in_degrees")
+    if not reaching(f).only_param("settings", lp):
+        problems.append("`settings` is reassigned before the loop")
+    if not problems:
         ck.ok(rule, fq, norm_key(lp), detail="result i = single-azimuth processing at azimuth i; paired with the azimuth list")
     else:
-        ck.violation(rule, fq, "azimuth loop", "the azimuthal result is not the in-order list of single-azimuth results paired with settings.azimuths_in_degrees",
-                     loc=f.loc(lp))
+        ck.violation(rule, fq, "azimuth loop", "the azimuthal result is not the in-order list of single-azimuth results paired with settings.azimuths_in_degrees: "
+                     + "; ".join(problems), loc=f.loc(lp))
     # single-azimuth body uses its settings' azimuth
     g = prog.func("processing.traditional_single_azimuth_hvsr_processing")
     c = [x for x in calls_in(g.node, "single_azimuth") if isinstance(x.func, ast.Name)]
